@@ -7,12 +7,14 @@ ref_dense(case, order) -> dense reference  sum_k f_k kron_j M_kj - offset*I  bui
 import renormalizer  # noqa: F401  (must precede numpy for the thread settings)
 import numpy as np
 
-from renormalizer.model import Model, Op
+from renormalizer.model import Model, Op, OpSum
 from renormalizer.model import basis as ba
 from renormalizer.utils import Quantity
 
 
 def site_dofs(i, s):
+    if s.get("dofs"):                     # explicit DoF names (histories that regroup the same DoFs into other sites)
+        return list(s["dofs"])
     if s["kind"] in ("multi", "multivac"):
         return ["m%d_%d" % (i, j) for j in range(s["ndof"])]
     return ["s%d" % i]
@@ -38,17 +40,42 @@ def cplx(f):
     return complex(f[0], f[1]) if f[1] != 0 else float(f[0])
 
 
-def build(case, order=None):
+def build_ops(case, pool=None):
+    """the Op objects of the term list; entries with the same "obj" id are the SAME Op instance (identical object
+    repeated in the list); `pool` lets several constructions (history) share the objects"""
+    pool = {} if pool is None else pool
+    terms = []
+    use_complex = any(t["f"][1] != 0 for t in case["terms"])
+    for k, t in enumerate(case["terms"]):
+        key = ("obj", t["obj"]) if "obj" in t else ("pos", k)
+        if key not in pool:
+            sym = " ".join(o[1] for o in t["ops"])
+            dofs = [o[0] for o in t["ops"]]
+            f = complex(t["f"][0], t["f"][1]) if use_complex else float(t["f"][0])
+            pool[key] = Op(sym, dofs, f)
+        terms.append(pool[key])
+    return terms
+
+
+def terms_argument(case, ops):
+    """how the list is handed to the package: plain list, `part + extra + part` (OpSum arithmetic) or a list that
+    contains the same OpSum object twice"""
+    if case.get("opsum"):
+        npart, nextra = case["opsum"]
+        part = OpSum(ops[:npart])
+        extra = OpSum(ops[npart:npart + nextra])
+        assert len(ops) == 2 * npart + nextra
+        if case.get("opsum_nested"):
+            return [part] + list(extra) + [part]
+        return part + extra + part
+    return ops
+
+
+def build(case, order=None, pool=None):
     sites = case["sites"]
     order = list(range(len(sites))) if order is None else order
     basis = [make_basis(i, sites[i]) for i in order]
-    terms = []
-    use_complex = any(t["f"][1] != 0 for t in case["terms"])
-    for t in case["terms"]:
-        sym = " ".join(o[1] for o in t["ops"])
-        dofs = [o[0] for o in t["ops"]]
-        f = complex(t["f"][0], t["f"][1]) if use_complex else float(t["f"][0])
-        terms.append(Op(sym, dofs, f))
+    terms = terms_argument(case, build_ops(case, pool))
     if case.get("offset_unit"):
         # the offset is handed over with an explicit unit; case["offset"] is its value in a.u. as converted by the
         # HARNESS (own CODATA factors) and is what the dense reference / the model use
@@ -56,6 +83,17 @@ def build(case, order=None):
     else:
         off = Quantity(case.get("offset", 0.0))
     return basis, terms, off
+
+
+def make_mpo(case, algo, order=None, pool=None):
+    """Mpo for the case: terms given explicitly, or (case["ham"]) through Model(basis, ham_terms) + Mpo(model)"""
+    from renormalizer.mps import Mpo
+    basis, terms, off = build(case, order, pool)
+    if case.get("ham"):
+        model = Model(basis, terms)
+        return Mpo(model, offset=off, algo=algo), model
+    model = Model(basis, [])
+    return Mpo(model, terms, offset=off, algo=algo), model
 
 
 # ------------------------------------------------------------------ independent local matrices
